@@ -449,6 +449,35 @@ func (w *World) checkAOLCommitted() error {
 			}
 		}
 	}
+	if w.On("C02") {
+		// the writer lists change through owner-signed transactions only: after every commit
+		// (hence also after a restart or a genesis export/import) the stored writer entries are
+		// exactly the model's
+		have := map[string]bool{}
+		for _, kv := range w.C.DumpStore(w.C.CommittedCtx(), "aol") {
+			if len(kv.K) > 0 && kv.K[0] == 0x02 {
+				have[string(kv.K)] = true
+			}
+		}
+		want := map[string]string{}
+		for _, set := range []map[string]*AolTopic{w.AOL.Topics, w.AOL.Dangling} {
+			for _, t := range set {
+				for wk := range t.Writers {
+					want[string(aolWriterKey(t.Owner, t.Name, []byte(wk)))] = fmt.Sprintf("<%x,%s,%x>", t.Owner, t.Name, wk)
+				}
+			}
+		}
+		for _, k := range sortedKeys(want) {
+			if !have[k] {
+				return vio("C02", "writer entry %s disappeared without a transaction of the topic's owner", want[k])
+			}
+		}
+		for _, k := range sortedKeys(have) {
+			if _, ok := want[k]; !ok {
+				return vio("C02", "the store lists a writer (key %x) that no transaction of the topic's owner added", k)
+			}
+		}
+	}
 	if w.On("C13") {
 		return w.checkC13()
 	}
